@@ -38,7 +38,9 @@ func valuesAlongPaths(fn *ssa.Function, from ssa.Instruction, target ssa.Value, 
 	for ph := range chain {
 		order = append(order, ph)
 	}
-	sort.Slice(order, func(i, j int) bool { return order[i].Pos() < order[j].Pos() || (order[i].Pos() == order[j].Pos() && order[i].Name() < order[j].Name()) })
+	sort.Slice(order, func(i, j int) bool {
+		return order[i].Pos() < order[j].Pos() || (order[i].Pos() == order[j].Pos() && order[i].Name() < order[j].Name())
+	})
 	type state struct {
 		b   int
 		env string
